@@ -22,6 +22,7 @@ package main
 import (
 	"bytes"
 	"crypto/sha256"
+	"encoding/binary"
 	"encoding/json"
 	"flag"
 	"fmt"
@@ -30,7 +31,9 @@ import (
 	"path/filepath"
 	"regexp"
 	"runtime"
+	"slices"
 	"sort"
+	"strconv"
 	"strings"
 	"sync"
 	"time"
@@ -346,7 +349,7 @@ func runShards(e *engine, budget time.Duration) (mismatching int64) {
 		}
 	}
 	capSeen := map[string]bool{}
-	distinct := map[[8]byte]struct{}{}
+	var hashes []uint64
 	for i, r := range reps {
 		if r.Next != reps[0].Next && len(r.Caps) == 0 && len(reps[0].Caps) == 0 {
 			harness.Fatal("Part A shards disagree on the number of cases (%d vs %d): the enumeration is not deterministic", r.Next, reps[0].Next)
@@ -412,16 +415,19 @@ func runShards(e *engine, budget time.Duration) (mismatching int64) {
 			harness.Fatal("shard hashes: %v", err)
 		}
 		for o := 0; o+8 <= len(hb); o += 8 {
-			var h [8]byte
-			copy(h[:], hb[o:o+8])
-			distinct[h] = struct{}{}
+			hashes = append(hashes, binary.LittleEndian.Uint64(hb[o:o+8]))
 		}
 		os.Remove(r.HashFile)
 	}
-	for h := range distinct {
-		e.c.Distinct(string(h[:]), true)
+	slices.Sort(hashes)
+	hashes = slices.Compact(hashes)
+	e.distinctDocs = int64(len(hashes))
+	for i, h := range hashes {
+		if i >= 1_500_000 { // the harness keeps at most 2M keys; the exact number is in coverage.partA.distinct_documents
+			break
+		}
+		e.c.Distinct(strconv.FormatUint(h, 16), true)
 	}
-	e.distinctDocs = int64(len(distinct))
 	return
 }
 
